@@ -92,6 +92,18 @@ theorem queue_lists_are_exact {s : State} (hr : Reachable s) {q : Nat} {v : JobQ
   intro j hj
   exact jobPQ_some (h.queued q v.jobs j (qjobs_of hv) hj)
 
+/-- **C01 holds in the model**: in every reachable state at most one operation per object is open, where an
+operation is open from the invocation of its closure until it completes or is destroyed — so a future operation
+suspended at an await counts.  (`exclusive_reachable`: the job invariant `JobInv` — who runs which job, queue lists
+exact, an open job is held or is the head of its queue, no open queued job while a job of the queue is held — is
+inductive over all 101 program counters and every environment step, on top of the run-right invariant.) -/
+theorem C01_holds : C01_full := fun _ hr => exclusive_reachable hr
+
+/-- non-vacuity: a reachable state with an open operation (a `sync` closure has been invoked on an idle queue) -/
+example : ∃ s, Reachable s ∧ ∃ (j : Nat) (b : Job), s.jobs[j]? = some b ∧ b.isOpen = true := by
+  refine ⟨_, Reachable.step (.act 0) (Reachable.step (.invoke 1 none (.sync 0)) (Reachable.init 1 0 1) rfl) rfl, 0, _, rfl, ?_⟩
+  decide
+
 /-- non-vacuity: a concrete reachable state in which an activity owns a queue -/
 example : ∃ s, Reachable s ∧ ∃ a q, (s.pcAt a).holds q = true := by
   refine ⟨_, Reachable.step (.act 0) (Reachable.step (.invoke 1 none (.sync 0)) (Reachable.init 1 0 1) rfl) rfl, 0, 0, ?_⟩
